@@ -295,7 +295,7 @@ func startStateThread(idx int, state string, stepIdx int, probes func() []kjob.P
 			}
 		case "nanosleep":
 			for atomic.LoadInt32(&releaseFlag) == 0 {
-				ts := syscall.Timespec{Nsec: 300000}
+				ts := syscall.Timespec{Nsec: 2000000}
 				syscall.Nanosleep(&ts, nil)
 			}
 		case "read":
@@ -312,7 +312,8 @@ func startStateThread(idx int, state string, stepIdx int, probes func() []kjob.P
 					close(done)
 				}()
 				<-done
-				ts := syscall.Timespec{Nsec: 100000}
+				// keep creating and destroying threads, but leave the (possibly single) P to the others most of the time
+				ts := syscall.Timespec{Nsec: 1000000}
 				syscall.Nanosleep(&ts, nil)
 			}
 		}
